@@ -214,6 +214,10 @@ pub proof fn axiom_sin_add(a: real, b: real)
 #[verifier::external_body]
 pub proof fn axiom_tan(a: real)
     ensures tan_r(a) * cos_r(a) == sin_r(a) {}
+#[verifier::external_body]
+pub proof fn axiom_acos(x: real)
+    requires -1real <= x <= 1real
+    ensures cos_r(acos_r(x)) == x, sin_r(acos_r(x)) == sqrt_r(1real - x * x), 0real <= acos_r(x) <= pi_r() {}
 pub proof fn lemma_sqrt_one() ensures sqrt_r(1real) == 1real {
     axiom_sqrt(1real);
     let s = sqrt_r(1real);
